@@ -11,6 +11,12 @@ spec -> code: every table (Mode = "tables") is rendered to a real .py and .pyi (
 and handed to the real merge_pyi.merge_sources (what the merge-pyi tool's main calls).
 Second family: programs (ProgGen.tla behaviours, the C15/C16 program generator, hand-written
 ones) x the stub the real pytype infers for them.
+Existing annotations range over T and (families funcx / varsx, programs c20_progs.EXISTING_ANY_NEVER)
+the annotations the author himself wrote as a bare Any / Never / typing.Any: on parameters, returns,
+`v: X = e`, value-less `v: X` (module level and class body) and annotated locals.  The model keeps
+them (KeptInv, AuthorAnyNeverStaysInv) although it forbids inserting the same text; the design
+alternative "run the Any / Never filter over the merged source too" (FilterMerged = TRUE) must
+violate KeptInv.  On the real code a stripped or deleted one is existing-dropped / existing-changed.
 code -> spec: specs/TraceC20.tla judges every pair: compiles; the annotation-free syntax tree is
 the original's; existing annotations kept; every inserted annotation is the stub's type for that
 definition; no bare Any / Never on a return or variable.  Differences between the operational
